@@ -65,6 +65,15 @@ type rowOne struct {
 	Only string
 }
 
+// a tagged time field BEFORE an untagged one (each field has its own format)
+type rowTimes2 struct {
+	Day   time.Time `format:"2006-01-02"`
+	Stamp time.Time
+	N     int
+	Again time.Time `format:"02 Jan 06 15:04"`
+	Last  time.Time
+}
+
 // Named types of the supported kinds, all of which print differently from
 // their underlying value (fmt.Stringer): the codec goes by kind.
 type (
@@ -573,6 +582,11 @@ func c11(ctx *run.Ctx) {
 			return csvFileHistory(cc, "rowOne", func(r *gen.Rand) *rowOne { return &rowOne{randString(r)} }, true)
 		}},
 		{"rowNamed/header", func(cc *run.Case) bool { return csvFileHistory(cc, "rowNamed", genRowNamed, true) }},
+		{"rowTimes2/header", func(cc *run.Case) bool {
+			return csvFileHistory(cc, "rowTimes2", func(r *gen.Rand) *rowTimes2 {
+				return &rowTimes2{Day: randTime(r, true), Stamp: randTime(r, false), N: r.Range(-9, 9), Again: randTime(r, false).Truncate(time.Minute), Last: randTime(r, false)}
+			}, true)
+		}},
 		{"rowNamed/noheader", func(cc *run.Case) bool { return csvFileHistory(cc, "rowNamed", genRowNamed, false) }},
 		{"rowNum/noheader", func(cc *run.Case) bool {
 			return csvFileHistory(cc, "rowNum", func(r *gen.Rand) *rowNum { return &rowNum{randInt(r, 64), randFloat(r), r.Bool()} }, false)
@@ -754,6 +768,15 @@ func c11JSON(cc *run.Case) bool {
 		jsonRound(cc, "map[string]any", maps, func(a, b map[string]any) bool { return reflect.DeepEqual(a, b) }) &&
 		jsonRound(cc, "int64 (long stream)", long, func(a, b int64) bool { return a == b }) &&
 		jsonRound(cc, "struct (long stream)", longRows, rowEq)) {
+		return false
+	}
+	snaps := make([]asset.Snapshot, n)
+	for i := range snaps {
+		snaps[i] = asset.Snapshot{Date: randTime(r, true).UTC(), Open: fs[i], High: fs[i] + 1.5, Low: fs[i] - 2.25, Close: fs[i] + 0.125, Volume: float64(r.Range(0, 1e6))}
+	}
+	if !jsonRound(cc, "asset.Snapshot", snaps, func(a, b asset.Snapshot) bool {
+		return a.Date.Equal(b.Date) && a.Open == b.Open && a.High == b.High && a.Low == b.Low && a.Close == b.Close && a.Volume == b.Volume
+	}) {
 		return false
 	}
 	if !jsonConcurrent(cc, longRows, rowEq) {
